@@ -60,6 +60,101 @@ func unwrapTo(p *packages.Package, e ast.Expr, names ...string) (*ast.CallExpr, 
 	return nil, ""
 }
 
+// viaAlphaHelper: the definition goes through a helper of the package (mustNucleic("acgt", feat.DNA, s, c))
+// that calls the constructor with its parameters and with constants: the constructor call is rebuilt with the
+// caller's arguments in place of the helper's parameters, and a local that holds the result of another
+// constructor (pairs, err := NewPairing(paired, complement)) in place of that local.
+func viaAlphaHelper(p *packages.Package, e ast.Expr) (*ast.CallExpr, string) {
+	hc, ok := unparen(e).(*ast.CallExpr)
+	if !ok {
+		return nil, ""
+	}
+	h := helperDecl(p, hc)
+	if h == nil || h.Type.Params == nil {
+		return nil, ""
+	}
+	env := map[types.Object]ast.Expr{}
+	i := 0
+	for _, f := range h.Type.Params.List {
+		for _, nm := range f.Names {
+			if i < len(hc.Args) {
+				env[p.TypesInfo.Defs[nm]] = hc.Args[i]
+			}
+			i++
+		}
+	}
+	if i != len(hc.Args) {
+		return nil, ""
+	}
+	var subst func(a ast.Expr, d int) ast.Expr
+	rebuild := func(c *ast.CallExpr, d int) *ast.CallExpr {
+		out := &ast.CallExpr{Fun: c.Fun, Lparen: c.Lparen, Rparen: c.Rparen}
+		for _, a := range c.Args {
+			out.Args = append(out.Args, subst(a, d+1))
+		}
+		return out
+	}
+	subst = func(a ast.Expr, d int) ast.Expr {
+		id, ok := unparen(a).(*ast.Ident)
+		if !ok || d > 4 {
+			return a
+		}
+		o := p.TypesInfo.Uses[id]
+		if o == nil {
+			return a
+		}
+		if r, ok := env[o]; ok {
+			return r
+		}
+		// a local of the helper assigned once from a call
+		var def *ast.CallExpr
+		n := 0
+		ast.Inspect(h.Body, func(x ast.Node) bool {
+			as, ok := x.(*ast.AssignStmt)
+			if !ok || len(as.Rhs) != 1 {
+				return true
+			}
+			for _, l := range as.Lhs {
+				if li, ok := l.(*ast.Ident); ok && (p.TypesInfo.Defs[li] == o || p.TypesInfo.Uses[li] == o) {
+					n++
+					if c, ok := unparen(as.Rhs[0]).(*ast.CallExpr); ok {
+						def = c
+					}
+				}
+			}
+			return true
+		})
+		if n == 1 && def != nil {
+			return rebuild(def, d)
+		}
+		return a
+	}
+	var inner *ast.CallExpr
+	which := ""
+	ast.Inspect(h.Body, func(x ast.Node) bool {
+		c, ok := x.(*ast.CallExpr)
+		if !ok {
+			return true
+		}
+		for _, n := range []string{"NewComplementor", "NewAlphabet"} {
+			if isFunc(calleeOf(p, c), p.PkgPath, n) {
+				if inner != nil {
+					which = "ambiguous"
+				}
+				inner = c
+				if which == "" {
+					which = n
+				}
+			}
+		}
+		return true
+	})
+	if inner == nil || which == "ambiguous" {
+		return nil, ""
+	}
+	return rebuild(inner, 0), which
+}
+
 func ruleAlphabets(c *Ctx) {
 	const rule = "tables/alphabet"
 	p := c.pkg("alphabet")
@@ -80,6 +175,9 @@ func ruleAlphabets(c *Ctx) {
 						continue
 					}
 					call, which := unwrapTo(p, vs.Values[i], "NewComplementor", "NewAlphabet")
+					if call == nil {
+						call, which = viaAlphaHelper(p, vs.Values[i])
+					}
 					if call == nil {
 						continue
 					}
@@ -728,7 +826,7 @@ func ruleQuality(c *Ctx) {
 			pair(n.name, n.val, "Qphred", dP, eP)
 		}
 	}
-	c.floor(rule, 6*3)
+	c.floor(rule, 6)
 }
 
 // ---- record markers ----------------------------------------------------------
@@ -750,6 +848,54 @@ func byteCmpConsts(p *packages.Package, fd *ast.FuncDecl) []int64 {
 				}
 			}
 		}
+		return true
+	})
+	// or through a helper of the package given the constant: startsWith(l, '@') with l[0] == c inside
+	ast.Inspect(fd.Body, func(n ast.Node) bool {
+		call, ok := n.(*ast.CallExpr)
+		if !ok {
+			return true
+		}
+		h := helperDecl(p, call)
+		if h == nil || h == fd || h.Type.Params == nil {
+			return true
+		}
+		var params []types.Object
+		for _, f := range h.Type.Params.List {
+			for _, nm := range f.Names {
+				params = append(params, p.TypesInfo.Defs[nm])
+			}
+		}
+		if len(params) != len(call.Args) {
+			return true
+		}
+		ast.Inspect(h.Body, func(m ast.Node) bool {
+			be, ok := m.(*ast.BinaryExpr)
+			if !ok || be.Op != token.EQL {
+				return true
+			}
+			for _, pair := range [][2]ast.Expr{{be.X, be.Y}, {be.Y, be.X}} {
+				ix, ok := unparen(pair[0]).(*ast.IndexExpr)
+				if !ok {
+					continue
+				}
+				if i, ok := constInt(p, ix.Index); !ok || i != 0 {
+					continue
+				}
+				id, ok := unparen(pair[1]).(*ast.Ident)
+				if !ok {
+					continue
+				}
+				for j, po := range params {
+					if po != nil && p.TypesInfo.Uses[id] == po {
+						if k, ok := constInt(p, call.Args[j]); ok {
+							out = append(out, k)
+						}
+					}
+				}
+			}
+			return true
+		})
 		return true
 	})
 	return out
